@@ -15,6 +15,8 @@ import (
 	"io"
 	"math"
 	"os"
+	"sync"
+	"sync/atomic"
 	"testing"
 	"time"
 
@@ -305,20 +307,36 @@ func TestVerifC02Trace(t *testing.T) {
 			}
 			done <- ""
 		}()
-		scratch := make([]byte, size)
-		for _, i := range order {
-			kit.FillToken(scratch, uint64(i))
-			f := &Frame{StreamID: 3, Seq: base + uint64(i), Payload: scratch}
-			if i == closeIdx {
-				f.Closing = closingStream
-			}
-			tw.Emit(map[string]any{"ev": "W.call", "i": i})
-			tbc, err := sb.Write(f)
-			tw.Emit(map[string]any{"ev": "W.ret", "tbc": tbc, "err": err != nil})
-			for j := range scratch {
-				scratch[j] = 0xEE
-			}
+		// 1, 2 or 4 writer goroutines (one deplex goroutine per connection) take the frames in the chosen order
+		nw := []int{1, 1, 2, 4}[rng.Intn(4)]
+		var next atomic.Int64
+		var wwg sync.WaitGroup
+		for w := 0; w < nw; w++ {
+			wwg.Add(1)
+			go func(w int) {
+				defer wwg.Done()
+				scratch := make([]byte, size)
+				for {
+					k := int(next.Add(1)) - 1
+					if k >= len(order) {
+						return
+					}
+					i := order[k]
+					kit.FillToken(scratch, uint64(i))
+					f := &Frame{StreamID: 3, Seq: base + uint64(i), Payload: scratch}
+					if i == closeIdx {
+						f.Closing = closingStream
+					}
+					tw.Emit(map[string]any{"ev": "W.call", "w": w, "i": i})
+					tbc, err := sb.Write(f)
+					tw.Emit(map[string]any{"ev": "W.ret", "w": w, "tbc": tbc, "err": err != nil})
+					for j := range scratch {
+						scratch[j] = 0xEE
+					}
+				}
+			}(w)
 		}
+		wwg.Wait()
 		msg := <-done
 		res.Count(fmt.Sprint(order, closeIdx, size), true)
 		if msg != "" {
